@@ -30,7 +30,10 @@ def make_cases(rng, tier, n):
     for c_i in range(n):
         ns = rng.choice([2, 3, 3, 4, 4] + ([5, 6, 8] if tier == "thorough" else [5]))
         cyclic = rng.random() < 0.2
-        c = gen.pipeline_project(rng, "dag-%d" % c_i, ns, cyclic=cyclic, tier=tier, sink=rng.random() < 0.3)
+        force_sink = (c_i % 8 == 5)
+        if force_sink:
+            cyclic = False
+        c = gen.pipeline_project(rng, "dag-%d" % c_i, ns, cyclic=cyclic, tier=tier, sink=(rng.random() < 0.3 or force_sink))
         names = [sp for sp, st in c["stages"]]
         ops = []
         if not cyclic:
@@ -46,6 +49,11 @@ def make_cases(rng, tier, n):
                         ("write", srcs[0], "g:%d:9" % rng.randrange(5000, 6000)), ("run", False, [names[j]]), ("commit", rng.choice("lc"), [names[j]]),
                         ("write", srcs[0], "g:%d:9" % rng.randrange(6000, 7000)), ("run", False, [names[i], names[j]])]
                 stats["recommitted_upstream"] = stats.get("recommitted_upstream", 0) + 1
+        if force_sink:
+            # everything is committed, then ONLY the leaf that keeps nothing in the cache itself is named: its whole upstream is in scope
+            ops += [("commit", rng.choice("lc"), []), ("push", False, [names[-1]]), ("wipecache",), ("fetch", False, [names[-1]]),
+                    ("checkout", rng.choice("lc"), False, [names[-1]])]
+            stats["sink_only_target"] = stats.get("sink_only_target", 0) + 1
         for _ in range(rng.randrange(1, 5)):
             k = rng.choice(["run", "run", "run_s", "commit", "status", "checkout", "edit", "push", "fetch", "graph"])
             tg = []
